@@ -27,6 +27,8 @@ LEVEL = 'translation_validation'
 PROVIDERS = ['sqlite', 'postgres', 'mysql', 'oracle']
 # data sets judged per dialect: Oracle cannot store '' (outside "the value domain every backend stores exactly")
 DATASETS = {'sqlite': [1, 2, 3, 4], 'postgres': [1, 2, 3, 4], 'mysql': [1, 2, 3, 4], 'oracle': [2, 4]}
+# quick tier: the two data sets with missing values for PostgreSQL / MySQL (SQLite keeps all four: engine validation)
+DATASETS_QUICK = {'sqlite': [1, 2, 3, 4], 'postgres': [1, 2], 'mysql': [1, 2], 'oracle': [2, 4]}
 
 CMP_NODES = {'EQ', 'NE', 'LT', 'LE', 'GT', 'GE', 'IS_NULL', 'IS_NOT_NULL', 'LIKE', 'NOT_LIKE', 'IN', 'NOT_IN', 'AND', 'OR',
              'NOT', 'EXISTS', 'NOT_EXISTS', 'BETWEEN', 'NOT_BETWEEN'}
@@ -41,6 +43,17 @@ def slice_queries():
             for sl in ((1, -1), (0, 2), (1, 2), (2, -1)):
                 out.append((dict(loops=[['x', 'T']], res=[['var', 'x']], cond=cond, ord=[[xid, d]], agg='none'), sl))
     return out
+
+
+def backslash_queries():
+    """LIKE patterns with a backslash (the default LIKE escape character of PostgreSQL and MySQL)."""
+    xs = ['attr', 'x', 's']
+    bs = '\\'
+    conds = [['startswith', xs, ['str', ['a', bs]]],
+             ['contains', ['str', [bs, 'b']], ['concat', xs, ['str', ['b']]]],
+             ['endswith', ['concat', xs, ['str', [bs]]], ['str', ['b', bs]]],
+             ['notcontains', ['str', [bs]], ['concat', xs, ['str', [bs, 'a']]]]]
+    return [(dict(loops=[['x', 'T']], res=[['var', 'x']], cond=c, ord=[], agg='none'), None) for c in conds]
 
 
 def query_source(q, sl):
@@ -68,11 +81,12 @@ def nested_comparison(ast):
     return any(nested_comparison(x) for x in ast[1:] if isinstance(x, (list, tuple)))
 
 
-def translate_all(prov, work, stats):
+def translate_all(prov, work, stats, dsets=None):
     """work: [(q, slice or None, expected per data set)] -> items for the judge (one per translatable query)."""
     db = mockdb.make(prov, qs.define)
     ns = qs.namespace(db)
     dialect = mockdb.DIALECTS[prov]
+    dsets = (dsets or DATASETS)[prov]
     items = []
     for n, (q, sl, out) in enumerate(work):
         expr, post = query_source(q, sl)
@@ -107,7 +121,7 @@ def translate_all(prov, work, stats):
         r0 = q['res'][0]
         entity = len(q['res']) == 1 and q['agg'] == 'none' and (r0[0] == 'var' or (r0[0] == 'attr' and r0[2] == 'ref'))
         items.append(dict(id=len(items) + 1, d=dialect, q=q, st=st, take=1 if entity else 0,
-                          slice=list(sl) if sl else [], ds=DATASETS[prov], exp=[out[k - 1] for k in DATASETS[prov]], _src=qs.describe(q) + ('[%s:%s]' % sl if sl else ''),
+                          slice=list(sl) if sl else [], ds=dsets, exp=[out[k - 1] for k in dsets], _src=qs.describe(q) + ('[%s:%s]' % sl if sl else ''),
                           _nested=nested_comparison(ast), _n=n))
         if n % 100 == 99:
             c01.clear_pony_caches(db)
@@ -213,7 +227,7 @@ def node_kinds(x, acc=None):
 def run(ctx):
     quick = ctx.tier == 'quick'
     pool = ThreadPoolExecutor(4)
-    extra = slice_queries()
+    extra = slice_queries() + backslash_queries()
     if not quick:
         n = 3000
         smp = qs.Sampler(ctx.seed)
@@ -250,7 +264,7 @@ def run(ctx):
             out += res
         return out
     for p in PROVIDERS:          # Pony is used from this thread only; the TLC processes run meanwhile
-        items[p] = translate_all(p, work, stats[p])
+        items[p] = translate_all(p, work, stats[p], DATASETS_QUICK if quick else DATASETS)
         jobs[p] = pool.submit(judge, p)
     real = sqlite_rows(work, datasets)      # real SQLite engine (model validation), while the TLC processes run
     reports = {p: jobs[p].result() for p in PROVIDERS}
@@ -300,6 +314,7 @@ def run(ctx):
                 ctx.sample({'query': it['_src'], 'dialect': it['d'], 'data_sets_judged': len(rep['res'])})
     ctx.coverage.update({
         'programs': programs, 'disagreements_checked': points, 'exhaustive': quick,
+        'data_sets_per_dialect': DATASETS_QUICK if quick else DATASETS,
         'queries': len(work), 'dialects': [mockdb.DIALECTS[p] for p in PROVIDERS],
         'untranslatable_accepted': {p: dict(stats[p]['untranslatable']) for p in PROVIDERS},
         'ast_not_modelled_skipped': {p: dict(stats[p]['unsupported']) for p in PROVIDERS},
